@@ -424,6 +424,22 @@ def execute(bname, K, spec, vals, form):
             out = ("v", _norm(r))
     clobbered = []
     start = 0
+    shared = None
+    if spec.mode == "pure" and isinstance(r, _ibase()) and form != "A" and not spec.name.startswith("_"):
+        # (private helpers are exempt: _tonelli_shanks hands back its argument for n in (0, 1), and its only caller,
+        #  sqrt(modulus), passes it a temporary)
+        # the result of an out-of-place operation is a value of its own: updating it in place must not reach an operand
+        # (an operation that hands back one of its operands instead of a new object shares its state with it)
+        before = [int(o) if isinstance(o, _ibase()) else None for o in objs[:spec.nint]]
+        try:
+            r += 1
+        except Exception:  # noqa
+            pass
+        for i in range(spec.nint):
+            if before[i] is not None and int(objs[i]) != before[i]:
+                shared = (i, before[i], int(objs[i]))
+        if shared:
+            return out, [("shared", shared[0], shared[1], shared[2])]
     if spec.mode == "imeth" or (spec.mode == "iop" and r is objs[0]) or (out[0] == "x" and spec.mode != "pure"):
         start = 1                       # the receiver of an in-place operation legitimately changes
     for i in range(start, spec.nint):
@@ -523,7 +539,13 @@ def int_case(name, vals, form, acc):
                 acc.violation(key, "%s %s; %s" % (call, got, _show_exp(exp)), case,
                               script=_script(spec, vals, form, bname, exp), size=_size(vals))
                 keys.append(key)
-        if clob:
+        if clob and clob[0][0] == "shared":
+            key = "C14/int/%s/result-shares-state-with-operand/%s" % (spec.key, bname)
+            acc.violation(key, "%s returns an object that shares its state with operand #%d: after 'result += 1' the operand "
+                          "changed from %s to %s" % (call, clob[0][1], short(clob[0][2], 40), short(clob[0][3], 40)), case,
+                          size=_size(vals))
+            keys.append(key)
+        elif clob:
             key = "C14/int/%s/operand-clobbered/%s" % (spec.key, bname)
             acc.violation(key, "%s changed operand #%d from %s to %s"
                           % (call, clob[0][0], short(clob[0][1], 40), short(clob[0][2], 40)), case,
